@@ -51,3 +51,13 @@ P("C14", "mirfacts+rules",
   "consulted only under should_force()==false, that force reaches generation without it, and that the CLI flag is applied after the "
   "configuration is loaded and never overwritten.  Exhaustive over both paths' CFGs.",
   "64-bit digest collisions ignored; mtime behaviour of the file system not modelled")
+
+P("C08", "mirfacts+srcfacts+rules",
+  "static analysis: field-level information flow (FLOW) — (ADT, field) read sets of everything a cache hit skips ⊆ read set of the digest computation; digest plumbing, existence-check governance, failure handling (ORDER/CTRL) over MIR",
+  "Decides the premise of the cache's soundness argument: every model/config field read by code reachable from generate_models or from "
+  "the post-check part of the two cache-consulting functions is an input of the digest (directly, through a derived Serialize, or as the "
+  "source string of a derived TypeStructure), modulo named exemptions that are re-established on every run (copy-only into a context "
+  "field no template mentions; constant None; non-output settings); that all digests reach the compared combined_hash; that an existence "
+  "check of the generated files governs an early 'regenerate' before the comparison; that load failure/version mismatch/Err regenerate; "
+  "that both paths consult the cache with the values they generate from.  Exhaustive over reachable bodies and fields.",
+  "64-bit digest collisions ignored; influence is assumed to pass only through field reads in the skipped region (no global state exists in the crate)", b=True)
